@@ -4,10 +4,11 @@ SPECIFICATION Spec
 CONSTANTS RF1 = {1, 2, 3, 4, 5, 6}
           RF2 = {2, 3}
           N2 = 3
-          Outcomes = {"ok", "conflict", "unavailable"}
+          Outcomes = {"ok", "conflict", "unavailable", "notready"}
           ReplThresholdIsQuorum = FALSE
           WithTimeout = FALSE
           CaseRF1 = {1, 2, 3, 4, 5, 6}
+          CaseRFLocal = {1, 2, 3, 4}
           CaseRF2 = {2}
           CaseOutcomes = {"ok", "conflict", "unavailable"}
 INVARIANTS C22Inv C23Inv OrderIndependent EarlyOnlyWhenDetermined
